@@ -41,6 +41,8 @@ def show(node):
         return f"Mux({show(node[1])},{show(node[2])},{show(node[3])})"
     if k == "array":
         return "Array([" + ",".join(show(p) for p in node[1]) + f"])[{show(node[2])}]"
+    if k == "ongoing":
+        return f"{node[1]}.ongoing({node[2]!r})"
     return str(node)
 
 
@@ -118,6 +120,8 @@ def build(node, sigs):
             return B(node[1]).matches(*node[2])
     if k == "mux":
         return Mux(B(node[1]), B(node[2]), B(node[3]))
+    if k == "ongoing":
+        return sigs["fsm:" + node[1]].ongoing(node[2])
     if k == "array":
         # the proxy is converted to a value: operators applied to an un-cast ArrayProxy are forwarded to
         # the elements (documented forwarding), which is not "operator applied to the indexing result"
@@ -273,7 +277,8 @@ def depth2(shapes=((2, False), (2, True)), full=False):
 
 class RandomExprs:
     """Seeded random expression trees up to a depth bound."""
-    def __init__(self, seed, W, amount_W, max_width=24):
+    def __init__(self, seed, W, amount_W, max_width=24, pool=None):
+        self.pool = pool
         self.r = random.Random(seed)
         self.W, self.aW, self.max_width = W, amount_W, max_width
         self.n = 0
@@ -286,6 +291,11 @@ class RandomExprs:
             if not unsigned_only or not (c[3] or (c[2] is None and c[1] < 0)):
                 if maxw >= self.W:
                     return c
+        if self.pool is not None:
+            cands = [p for p in self.pool if p[2] <= maxw and not (unsigned_only and p[3])]
+            if cands:
+                return r.choice(cands)
+            return ["const", r.randint(0, 1), 1, False]
         w = r.randint(0, maxw)
         s = (not unsigned_only) and w > 0 and r.random() < 0.45
         self.n += 1
@@ -337,10 +347,16 @@ class RandomExprs:
             return ["matches", x, pats]
         if choice < 0.98:
             return ["mux", G(maxw=2), G(), G()]
-        n = r.choice([2, 3, 4])
+        # with a leaf pool (statement programs) arrays are always fully indexed: in-range by construction
+        n = r.choice([2, 3, 4] if self.pool is None else [2, 4])
         iw = 1 if n == 2 else 2
         self.n += 1
         idx = sig(f"x{self.n}", (iw, False))
+        if self.pool is not None:
+            cands = [p for p in self.pool if p[2] == iw and not p[3]]
+            if not cands:
+                return self.leaf(unsigned_only, maxw)
+            idx = r.choice(cands)
         return ["array", [G() for _ in range(n)], idx]
 
 
